@@ -75,7 +75,7 @@ structure WOk (gen n : Nat) (w : Waiter) : Prop where
   one : w.woken = .one → 15 ≤ n
   park : 14 ≤ n → w.parked = false
 
-structure Inv (g : G) : Prop where
+structure InvCore (g : G) : Prop where
   valid : g.exiter.pc.valid = true
   sh : ShOk g.sh g.exiter.pc.stage g.exiter.hasPostStop
   ws : ∀ w ∈ g.waiters, WOk g.sh.gen g.exiter.pc.stage w
@@ -150,12 +150,12 @@ macro "exit_plain" : tactic => `(tactic| (
     fun w hm => (hw w hm).mono (by simp [EPc.stage]) (by simp [EPc.stage]), hset' _ _ _⟩
   exit_sh))
 
-theorem inv_e (g : G) (h : Inv g) : Inv (step g .e) := by
+theorem inv_e (g : G) (h : InvCore g) : InvCore (step g .e) := by
   obtain ⟨hv, hs, hw, hset⟩ := h
-  obtain ⟨sh, ex, setters, ws⟩ := g
-  obtain ⟨pc, post, lateCalls⟩ := ex
+  obtain ⟨sh, ex, setters, ws, drs⟩ := g
+  obtain ⟨pc, post, lateCalls, armed, unwound⟩ := ex
   simp only at hv hs hw
-  have hset' : ∀ sh' ws' ex', settersBelowStopping { sh := sh', exiter := ex', setters := setters, waiters := ws' } = true :=
+  have hset' : ∀ sh' ws' ex', settersBelowStopping { sh := sh', exiter := ex', setters := setters, waiters := ws', drainers := drs } = true :=
     fun _ _ _ => hset
   cases pc with
   | set1 c =>
@@ -238,7 +238,7 @@ theorem inv_e (g : G) (h : Inv g) : Inv (step g .e) := by
         refine ⟨by simp [lateEntry, EPc.valid, Nat.min_le_right], ?_, ?_, hset' _ _ _⟩
         · simpa [EPc.stage, lateEntry] using hs
         · simpa [EPc.stage, lateEntry] using hw
-  | done => simpa [step, stepExiter] using (⟨hv, hs, hw, hset⟩ : Inv _)
+  | done => simpa [step, stepExiter] using (⟨hv, hs, hw, hset⟩ : InvCore _)
 
 theorem forall_set {α : Type} {P : α → Prop} {l : List α} {i : Nat} {x : α}
     (h : ∀ a ∈ l, P a) (hx : P x) : ∀ a ∈ l.set i x, P a := by
@@ -249,7 +249,7 @@ theorem forall_set {α : Type} {P : α → Prop} {l : List α} {i : Nat} {x : α
 
 /-- A waiter returning now records `ok = true`: the four ways `wait()` can return all imply that
 the status is `Stopped` and the cleanup is complete. -/
-theorem okNow_of_stage {g : G} (h : Inv g) (h12 : 12 ≤ g.exiter.pc.stage) : okNow g = true := by
+theorem okNow_of_stage {g : G} (h : InvCore g) (h12 : 12 ≤ g.exiter.pc.stage) : okNow g = true := by
   obtain ⟨a1,a2,a3,a4,a5,a6,a7,a8,a9,a10,a11,a12,a13,a14,a15,a16⟩ := h.sh
   simp only [okNow, snapshotOk, Flags.complete, Bool.and_eq_true, beq_iff_eq, Bool.or_eq_true, Bool.not_eq_true']
   refine ⟨a4 h12, ⟨⟨⟨⟨⟨⟨⟨a5 (by omega), a6 (by omega)⟩, a7 (by omega)⟩, a8 (by omega)⟩, a10 (by omega)⟩,
@@ -258,7 +258,7 @@ theorem okNow_of_stage {g : G} (h : Inv g) (h12 : 12 ≤ g.exiter.pc.stage) : ok
   · exact Or.inl rfl
   · exact Or.inr (a9 (by omega) hp)
 
-theorem inv_w (g : G) (i : Nat) (h : Inv g) : Inv (step g (.w i)) := by
+theorem inv_w (g : G) (i : Nat) (h : InvCore g) : InvCore (step g (.w i)) := by
   simp only [step]
   split
   · exact h
@@ -346,7 +346,7 @@ theorem inv_w (g : G) (i : Nat) (h : Inv g) : Inv (step g (.w i)) := by
 theorem stage_le (pc : EPc) : pc.stage ≤ 15 := by
   cases pc <;> (try rename_i c; cases c) <;> simp [EPc.stage]
 
-theorem inv_abandon (g : G) (i : Nat) (h : Inv g) : Inv (step g (.abandon i)) := by
+theorem inv_abandon (g : G) (i : Nat) (h : InvCore g) : InvCore (step g (.abandon i)) := by
   simp only [step]
   split
   · exact h
@@ -379,7 +379,7 @@ theorem all_set {α : Type} {p : α → Bool} {l : List α} {i : Nat} {x : α}
   rw [List.all_eq_true] at h ⊢
   exact forall_set h hx
 
-theorem inv_s (g : G) (i : Nat) (h : Inv g) : Inv (step g (.s i)) := by
+theorem inv_s (g : G) (i : Nat) (h : InvCore g) : InvCore (step g (.s i)) := by
   simp only [step]
   split
   · exact h
@@ -392,8 +392,8 @@ theorem inv_s (g : G) (i : Nat) (h : Inv g) : Inv (step g (.s i)) := by
     obtain ⟨hrest, hcall⟩ := ht
     -- a publish of a value below `Stopping` elects nothing and keeps every stage fact
     have key : ∀ s, s < stStopping → ∀ rest, rest.all (· < stStopping) = true →
-        Inv { g with sh := { g.sh with status := max g.sh.status s },
-                     setters := g.setters.set i { call := none, rest := rest } } := by
+        InvCore { g with sh := { g.sh with status := max g.sh.status s },
+                         setters := g.setters.set i { call := none, rest := rest } } := by
       intro s hs rest hr
       refine ⟨h.valid, ?_, h.ws, ?_⟩
       · dsimp only
@@ -415,7 +415,7 @@ theorem inv_s (g : G) (i : Nat) (h : Inv g) : Inv (step g (.s i)) := by
     cases call with
     | none =>
       cases rest with
-      | nil => simpa [stepSetter] using (show Inv { g with setters := g.setters.set i { call := none, rest := [] } } from
+      | nil => simpa [stepSetter] using (show InvCore { g with setters := g.setters.set i { call := none, rest := [] } } from
           ⟨h.valid, h.sh, h.ws, by simp only [settersBelowStopping]; exact all_set hall (by simp)⟩)
       | cons s rest =>
         simp only [List.all_cons, Bool.and_eq_true, decide_eq_true_eq] at hrest
@@ -426,17 +426,5 @@ theorem inv_s (g : G) (i : Nat) (h : Inv g) : Inv (step g (.s i)) := by
       rename_i s
       simp only [stepSetter, pub s hcall]
       exact key s hcall rest hrest
-
-theorem inv_step (g : G) (tid : Tid) (h : Inv g) : Inv (step g tid) := by
-  cases tid with
-  | e => exact inv_e g h
-  | s i => exact inv_s g i h
-  | w i => exact inv_w g i h
-  | abandon i => exact inv_abandon g i h
-
-theorem inv_run (g : G) (sched : List Tid) (h : Inv g) : Inv (run g sched) := by
-  induction sched generalizing g with
-  | nil => exact h
-  | cons t l ih => exact ih _ (inv_step g t h)
 
 end ExitRace
